@@ -167,9 +167,12 @@ CallFailed(e) ==
 CallNontrivial(e) == e.r.ok
 
 \* --- C01 / C12 on a (concrete, weakened) pair of runs: a = concrete, b = weakened
+RECURSIVE HasNumBounds(_)
+HasNumBounds(v) == IF v.st = "unk" THEN Has(v.rf, "lo") \/ Has(v.rf, "hi") ELSE \E m \in Members(v) : HasNumBounds(m)
 WeakPremise(e) ==
   /\ Len(e.a) = Len(e.b)
-  /\ AllRanked(e.a) /\ AllRanked(e.b) /\ ResRanked(e.ra) /\ ResRanked(e.rb)
+  /\ AllRanked(e.a) /\ AllRanked(e.b) /\ ResRanked(e.rb)
+  /\ (ResRanked(e.ra) \/ (e.rb.ok /\ ~HasNumBounds(e.rb.val)))    \* an order is needed only against numeric bounds
   /\ \A i \in 1..Len(e.a) : Admits(e.b[i], e.a[i])
 WeakFailed(e, P) ==
   (IF Has(e, "rbs") /\ Len(e.rbs) # 1 THEN {"C20.Pure"} ELSE {}) \cup
